@@ -9,10 +9,12 @@ def run(env, rep):
         "R2: the decoder's marker dispatch, the typed reads of each parser, the constructed variant, the Boolean byte "
         "interpretation (interval refinement of the deciding branch), the object-property / terminator grammar and the "
         "strict-array loop bound equal the specification table; R3: every failed read ends in an error return and no read "
-        "Result is discarded.  Not decided: conformance for every value (follows by structural induction, stated not mechanised).")
+        "Result is discarded; R4: the encoder refuses (builds an error for) a value only where AMF0 cannot express it - a byte length above 65,535, or the empty "
+        "property name - classified per variant on every error path by what the path's state proves about the lengths.  Not decided: conformance for every value (follows by structural induction, stated not mechanised).")
     rep.assumptions = ["byteorder's write_uN::<E>/read_uN::<E> encode the named width and byte order", "the specification table /verif/spec/amf0.json is transcribed correctly"]
     rep.exhaustive = True
     spec = amf0.load_spec()
     amf0.check_encoder_grammar(env, rep, "C12.R1", spec)
     amf0.check_decoder(env, rep, "C12.R2", spec)
     amf0.check_error_discipline(env, rep, "C12.R3")
+    amf0.check_encoder_refusals(env, rep, "C12.R4")
